@@ -1393,8 +1393,95 @@ fn cross_kind(ctx: &mut Ctx) {
 			}
 		}
 	}
-	ctx.traces += 16;
-	ctx.transitions += 20 + 12 * 7;
+	// 5. commands to things hosted by a track that is paused: the track's output is frozen, the commands are still
+	// consumed by the next callback (handle-visible state / position)
+	for spatial in [false, true] {
+		ctx.evals += 1;
+		use kira::sound::PlaybackState as PS;
+		let slow = Tween { duration: Duration::from_secs_f64(3.0 / 8.0), ..Default::default() };
+		let mut m = rig::manager(8, 1, rig::caps(4), MainTrackBuilder::new());
+		let l = m.add_listener(glam::Vec3::ZERO, glam::Quat::IDENTITY).unwrap();
+		enum T {
+			Plain(kira::track::TrackHandle),
+			Spatial(kira::track::SpatialTrackHandle),
+		}
+		let mut t = if spatial { T::Spatial(m.add_spatial_sub_track(&l, glam::Vec3::new(0.0, 0.0, -1.0), SpatialTrackBuilder::new()).unwrap()) } else { T::Plain(m.add_sub_track(TrackBuilder::new()).unwrap()) };
+		let (mut s1, mut s2, mut child) = match &mut t {
+			T::Plain(t) => (t.play(dc_loop(8, 0.5)).unwrap(), t.play(rig::static_data(8, rig::dc_frames(8 * 64, 0.25))).unwrap(), t.add_sub_track(TrackBuilder::new()).unwrap()),
+			T::Spatial(t) => (t.play(dc_loop(8, 0.5)).unwrap(), t.play(rig::static_data(8, rig::dc_frames(8 * 64, 0.25))).unwrap(), t.add_sub_track(TrackBuilder::new()).unwrap()),
+		};
+		rig::callback(&mut m, &mut buf, 1, 2);
+		match &mut t {
+			T::Plain(t) => t.pause(instant()),
+			T::Spatial(t) => t.pause(instant()),
+		}
+		rig::callback(&mut m, &mut buf, 1, 2);
+		rig::callback(&mut m, &mut buf, 1, 2);
+		s1.stop(slow);
+		child.pause(slow);
+		let p0 = s2.position();
+		s2.seek_by(10.0);
+		rig::callback(&mut m, &mut buf, 1, 2);
+		let (st1, stc) = (s1.state(), child.state());
+		s2.seek_by(10.0);
+		rig::callback(&mut m, &mut buf, 1, 2);
+		// (the position a handle reports is refreshed when the sound is processed: resume the track to read it)
+		match &mut t {
+			T::Plain(t) => t.resume(instant()),
+			T::Spatial(t) => t.resume(instant()),
+		}
+		// (... and it names the frame being heard, which trails the transport by the resampler's 3 look-ahead frames)
+		for _ in 0..8 {
+			rig::callback(&mut m, &mut buf, 1, 2);
+		}
+		let p1 = s2.position();
+		let host = if spatial { "spatial track" } else { "track" };
+		if st1 != PS::Stopping {
+			ctx.fail(format!("a command to a sound on a paused {} is not consumed by the next callback :: cross-kind", host), format!("stop(3 callbacks fade) -> state {:?}, expected Stopping", st1));
+		}
+		if stc != kira::track::TrackPlaybackState::Pausing {
+			ctx.fail(format!("a command to a child track of a paused {} is not consumed by the next callback :: cross-kind", host), format!("pause(3 callbacks fade) -> state {:?}, expected Pausing", stc));
+		}
+		if (p1 - p0 - 20.0).abs() > 1.5 {
+			ctx.fail(
+				format!("two seek_by commands issued in two different callback intervals to a sound on a paused {} are not both applied :: cross-kind", host),
+				format!("position {} -> {} (expected + 20 s)", p0, p1),
+			);
+		}
+		ctx.nontrivial(hash64(&("paused host", spatial)));
+	}
+	// 6. a later command of the same kind supersedes an earlier one that is still pending (delayed start), also when it
+	// asks for exactly the value the parameter has at that moment
+	{
+		ctx.evals += 1;
+		let mut m = rig::manager(8, 1, rig::caps(2), MainTrackBuilder::new());
+		let mut h = m.play(dc_loop(8, 0.5)).unwrap();
+		let mut tb = TrackBuilder::new();
+		let mut vc = tb.add_effect(VolumeControlBuilder::new(0.0));
+		let mut t = m.add_sub_track(tb).unwrap();
+		let _s = t.play(dc_loop(8, 0.25)).unwrap();
+		rig::callback(&mut m, &mut buf, 1, 2);
+		let later = Tween { start_time: StartTime::Delayed(Duration::from_secs_f64(4.0 / 8.0)), duration: Duration::ZERO, easing: Easing::Linear };
+		h.set_volume(-60.0, later);
+		vc.set_volume(-60.0, later);
+		rig::callback(&mut m, &mut buf, 1, 2);
+		h.set_volume(0.0, instant());
+		vc.set_volume(0.0, instant());
+		let mut heard = vec![];
+		for _ in 0..8 {
+			rig::callback(&mut m, &mut buf, 1, 2);
+			heard.push(buf[0]);
+		}
+		if heard.iter().any(|x| (*x - 0.75).abs() > 1e-6) {
+			ctx.fail(
+				"a later command of the same kind does not supersede an earlier, still pending one (the older command is applied late) :: cross-kind",
+				format!("set_volume(-60 dB, delayed 4 callbacks); callback; set_volume(0 dB, instant) on a sound (0.5) and a volume-control effect (0.25): heard {:?}, expected 0.75 throughout", heard),
+			);
+		}
+		ctx.nontrivial(hash64(&"supersede"));
+	}
+	ctx.traces += 19;
+	ctx.transitions += 20 + 12 * 7 + 26;
 	ctx.state(hash64(&"cross"));
 	ctx.outcome(hash64(&"cross"));
 }
